@@ -65,6 +65,9 @@ package searcher
 //@   at call searcher.Next#0 after: ghost result0.cowner = recv
 //@   ensures poolApart(ctx, s) && conjShape(s) && s.currs == old(s.currs) && s.searchers == old(s.searchers) && s.started == old(s.started) && s.last == old(s.last) && s.done == old(s.done)
 //@   ensures implies(result == nil, s.initialized && forall(k, 0, len(s.searchers), slotOK(s, k)))
+// set level: every id all children match lies at or after each child's first match
+//@   ensures s.lbset == old(s.lbset) && s.lb == old(s.lb) && implies(result == nil, all(x, string, implies(conjMatch(s, x), forall(k, 0, len(s.searchers), s.currs[k] != nil && x >= dmKey(s.currs[k])))))
+//@   loop 0: invariant s.lbset == old(s.lbset) && s.lb == old(s.lb) && all(x, string, implies(conjMatch(s, x), forall(k, 0, iter, s.currs[k] != nil && x >= dmKey(s.currs[k]))))
 //@   loop 0: invariant poolApart(ctx, s) && conjShape(s) && !s.initialized && s.currs == old(s.currs) && s.searchers == old(s.searchers) && s.started == old(s.started) && s.last == old(s.last) && s.done == old(s.done)
 //@   loop 0: invariant forall(k, 0, iter, slotOK(s, k)) && forall(k, iter, len(s.searchers), s.currs[k] == nil && !s.searchers[k].started && !s.searchers[k].done)
 
